@@ -322,7 +322,7 @@ static void episode(bool thorough)
             if (prng_below(25) == 0) nr = prng_below(32768);
             deliver(h, f, frame_s(f, nr)); if (prng_below(2)) op_tick(prng_below(10)); }
         else if (h >= 0 && r < 92) { static const int U[] = { 0x07, 0x07, 0x13, 0x43, 0x83, 0x0b, 0x23, 0x07, 0x43, 0x83 }; deliver(h, f, frame_u(f, U[prng_below(10)])); if (prng_below(2)) op_tick(prng_below(10)); }
-        else if (h >= 0 && r < 94) { int n = prng_range(1, 12); for (int i = 0; i < n; i++) f[i] = (uint8_t) prng_next(); if (prng_below(2)) f[0] = 0x68; if (prng_below(3) == 0 && n > 1) f[1] = prng_below(8); op_rx(h, f, n); op_tick(1); }
+        else if (h >= 0 && r < 94) { int n = prng_range(1, 12); for (int i = 0; i < n; i++) f[i] = (uint8_t) prng_next(); if (prng_below(2)) f[0] = 0x68; if (prng_below(3) == 0 && n > 1) f[1] = prng_below(8); if (prng_below(3) == 0 && n > 2) { static const int C[] = { 0x07, 0x43, 0x13, 0x01, 0x83, 0x00 }; f[0] = 0x68; f[1] = n - 2; f[2] = C[prng_below(6)]; } op_rx(h, f, n); op_tick(1); }
         else if (h >= 0 && r < 96) { op_close(h); op_tick(1); }
         else if (h >= 0 && r < 97) { op_wfail(h, 1); op_tick(prng_below(2000)); if (prng_below(2)) op_wfail(h, 0); }
         else op_tick(0);
